@@ -2,6 +2,22 @@
 
 N = ("native", 1.0)
 
+
+def MIRI(scale, shards=16, **args):
+    return ("miri", scale, {"shards": shards, "args": args, "timeout": 5400})
+
+
+def ASAN(scale, shards=8, **args):
+    return ("asan", scale, {"shards": shards, "args": args, "timeout": 3600})
+
+
+def VALGRIND(scale, shards=16, **args):
+    return ("valgrind", scale, {"shards": shards, "args": args, "timeout": 5400})
+
+
+def TSAN(scale, shards=2, threads=1, **args):
+    return ("tsan", scale, {"shards": shards, "threads": threads, "args": args, "timeout": 3600})
+
 PROPS = {
     "C01": dict(bin="c01", oracle=True,
                 legs={"quick": [N], "thorough": [N]},
@@ -81,20 +97,23 @@ PROPS = {
                 assumptions=["independent validator states which requirements are violated; an error kind is "
                              "accepted if it belongs to some violated requirement (messages are not compared)"]),
     "C09": dict(bin="c09", oracle=False,
-                legs={"quick": [N], "thorough": [N]},
+                legs={"quick": [N],
+                      "thorough": [N, MIRI(0.002), ASAN(0.1), VALGRIND(0.02)]},
                 gates=[("counter_min", "elements_compared", 5000), ("counter_min", "placement_elements_checked", 5000),
                        ("counter_min", "empty_queries", 10), ("counter_min", "combined_rank_above_6", 10),
                        ("counter_min", "zero_length_trailing_axis_cases", 5), ("counter_min", "array_into_compared", 300),
                        ("hist_keys_min", "query_kind", 6)],
                 assumptions=["placement probe: the recording strategy's code f(x, lane) is injective on the queries used"]),
     "C13": dict(bin="c13", oracle=False,
-                legs={"quick": [N], "thorough": [N]},
+                legs={"quick": [N],
+                      "thorough": [N, MIRI(0.002), ASAN(0.1)]},
                 gates=[("counter_min", "observations_compared", 20000), ("counter_min", "query_storage_variants", 10),
                        ("hist_keys_min", "variation", 10), ("hist_keys_min", "storage_effective", 4),
                        ("hist_keys_min", "data_layout_class", 6)],
                 assumptions=["storage kinds of data/axes are instantiated for f64 data Ix2/IxDyn (1-D) and Ix3/IxDyn (2-D)"]),
     "C14": dict(bin="c14", oracle=False,
-                legs={"quick": [N], "thorough": [N]},
+                legs={"quick": [N],
+                      "thorough": [N, ASAN(0.1), VALGRIND(0.02), MIRI(0.002)]},
                 gates=[("counter_min", "ok_fully_written_checked", 1000), ("counter_min", "wrong_buffers_rejected", 5000),
                        ("counter_min", "wrong_buffers_rejected_same_count", 500),
                        ("counter_min", "windows_with_leading_and_trailing_slack", 500),
@@ -103,21 +122,23 @@ PROPS = {
                        ("hist_keys_min", "wrong_shape_kind", 8)],
                 assumptions=["sentinel = NaN payload no computation on finite data can produce"]),
     "C18": dict(bin="c18", oracle=False,
-                legs={"quick": [N], "thorough": [N]},
+                legs={"quick": [N],
+                      "thorough": [N, MIRI(0.004)]},
                 gates=[("counter_min", "user_build_invocations", 200), ("counter_min", "builder_rows", 2000),
                        ("counter_min", "strategy_calls_checked", 3000), ("counter_min", "target_placements_checked", 1000),
                        ("counter_min", "injected_interp_errors", 1000), ("counter_min", "injected_build_errors", 100),
                        ("counter_min", "index_point_checked", 500), ("hist_keys_min", "declared_minimum", 10)],
                 assumptions=["axes shorter than 2 are not judged (only the direction the statement gives is asserted)"]),
     "C19": dict(bin="c19", oracle=False, exhaustive=True,
-                legs={"quick": [N, ("miri", 1.0, {"shards": 13, "args": {"stratum": 1}})],
-                      "thorough": [N, ("miri", 1.0, {"shards": 16, "args": {"stratum": 0}})]},
+                legs={"quick": [N, MIRI(1.0, shards=13, stratum=1)],
+                      "thorough": [N, MIRI(1.0, shards=16, stratum=0), ASAN(1.0, shards=4)]},
                 gates=[("counter_min", "instantiations", 170), ("counter_min", "cast_events", 412),
                        ("counter_min", "path_comparisons", 850)],
                 assumptions=["type_name distinguishes the types involved (sizes and alignments are compared too)",
                              "Miri is the independent UB arbiter for the cast"]),
     "C17": dict(bin="c17", oracle=False, compile_assert="Send + Sync",
-                legs={"quick": [N], "thorough": [N]},
+                legs={"quick": [N],
+                      "thorough": [N, MIRI(0.03, shards=16, history=10, perms=1, **{'max-threads': 3}), TSAN(0.2, shards=2), ASAN(0.05, shards=4)]},
                 gates=[("counter_min", "distinct_interleavings_with_overlap", 2), ("counter_min", "overlapping_call_pairs", 100),
                        ("counter_min", "ops_replayed_concurrently", 5000), ("hist_keys_min", "scenario", 4),
                        ("hist_keys_min", "reference_outcome", 3)],
